@@ -81,6 +81,34 @@ def core_build(history):
     return K
 
 
+def core_alias_grid(report: Report, tier: str) -> dict:
+    """Every pin number 0..69 in every decimal spelling (int, str, zero-padded str): a value written through one spelling is
+    read back through every other spelling of the same pin, and through no spelling of the neighbouring pin."""
+    import Reduino.Core as K
+
+    n = 0
+    for pin in range(0, 70):
+        spellings = [pin, str(pin), f"{pin:02d}", f"{pin:03d}"]
+        spellings = list(dict.fromkeys(spellings))
+        other = [pin + 1, str(pin + 1)]
+        for w in spellings:
+            for kind, op, want in (("digital", lambda k, q: k.digital_write(q, k.HIGH), (1, 0)), ("analog", lambda k, q: k.analog_write(q, 123), (0, 123)),
+                                   ("pullup", lambda k, q: k.pin_mode(q, k.INPUT_PULLUP), (1, 0))):
+                importlib.reload(K)
+                op(K, w)
+                for r in spellings + other:
+                    n += 1
+                    got = (K.digital_read(r), K.analog_read(r))
+                    expect = want if r in spellings else (0, 0)
+                    if got != expect:
+                        hist = [(kind + "_write" if kind != "pullup" else "pin_mode", (w,), {}), ("read", (r,), {})]
+                        report.violation(explore.history_key(ID, "Core-alias", hist), f"Core: {kind} value set through pin {w!r}, (digital_read, analog_read)({r!r}) = {got}, expected {expect}",
+                                         {"subject": "Core-alias", "write": repr(w), "read": repr(r), "kind": kind})
+    report.evaluations += n
+    report.transitions += n
+    return {"reads": n}
+
+
 def core_bfs(report: Report, tier: str) -> dict:
     ops = core_ops(tier)
     read_pins = CORE_PINS + [8, "8", "A1"]
@@ -439,6 +467,7 @@ def main(tier: str, seed: int, only=None) -> int:
     report = Report(ID, LEVEL, tier, seed)
     stats = {}
     stats["Core"] = core_bfs(report, tier)
+    stats["Core-alias"] = core_alias_grid(report, tier)
     stats["map"] = check_map(report, tier)
     stats["sleep"] = check_sleep(report)
     stats["Button"] = check_button(report, tier)
